@@ -97,7 +97,10 @@ PATS = {
     3: ["a*", "?b", "*", "[ab]*", "a\\*", "*_bar", "f1?", "**", "?", "[!a]*", "a[", "x.y", "<*>", "main",
         "foo", "*a*b*", "a?*", "???"],
 }
-MODS = ["", "main", "ma", "mainx", "lib", "libfoo.so", "other", "libfoo.so.1", "m"]
+MODS = ["", "main", "ma", "mainx", "lib", "libfoo.so", "other", "libfoo.so.1", "m", "libc14so", "libc14so.so.7",
+        "libc14file", "libc14file.so.7.1.x"]
+REALLIB = "@REALLIB@"       # replaced by the path of a real shared object (file libc14file.so.7.1, soname libc14so.so.7)
+MODPATHS = ["/usr/bin/main", "main", "/x/libfoo.so.1.2", "/nonexistent/other", REALLIB, REALLIB, "lib"]
 LIBS = ["/usr/bin/main", "main", "/x/libfoo.so.1.2", "dir/", "/a/b/other", "ma", "/main/x"]
 SONAMES = [None, None, "libfoo.so.1", "main", ""]
 
@@ -142,14 +145,32 @@ def gen_pattern_case(rng, i):
     qs = []
     for _ in range(rng.randrange(3, 8)):
         qs.append((rng.choice(LIBS), rng.choice(SONAMES), rng.choice(NAMES)))
-    return {"kind": "pat", "ptype": ptype, "funcs": funcs, "defmod": defmod, "cli": cli, "queries": qs, "tags": tags}
+    mods = [rng.choice(MODPATHS) for _ in range(rng.randrange(1, 4))]
+    return {"kind": "pat", "ptype": ptype, "funcs": funcs, "defmod": defmod, "cli": cli, "queries": qs, "tags": tags,
+            "modpaths": mods}
 
 
 def pat_lines(c):
     ls = ["PAT %d %s %s" % (c["ptype"], hx(c["funcs"]), hx(c["defmod"]))]
     for lib, so, name in c["queries"]:
         ls.append("Q %s %s %s" % (hx(lib), "-" if so is None else (hx(so) if so else "00"), hx(name)))
+    for path in c.get("modpaths", []):
+        ls.append("MOD %s" % hx(path.replace(REALLIB, REALLIB_PATH[0])))
     return ls
+
+
+REALLIB_PATH = ["/nonexistent-c14/libc14file.so.7.1"]
+
+
+def build_reallib(ctx):
+    """a real shared object whose file name and DT_SONAME differ (get_soname reads the file)"""
+    d = os.path.join(ctx.scratch, "elfs")
+    os.makedirs(d, exist_ok=True)
+    src = os.path.join(d, "l.c")
+    open(src, "w").write("int c14_lib_fn(int x) { return x + 1; }\n")
+    lib = os.path.join(d, "libc14file.so.7.1")
+    sh(["gcc", "-shared", "-fPIC", "-Wl,-soname,libc14so.so.7", "-o", lib, src], check=True)
+    REALLIB_PATH[0] = lib
 
 
 class Out:
@@ -182,6 +203,13 @@ def read_pat(out, c):
         bits = [] if t[2] == "-" else [ch == "1" for ch in t[2]]
         res.append((int(t[1]), bits))
     c["qres"] = res
+    mres = []
+    for path in c.get("modpaths", []):
+        t = out.next().split()
+        if t[0] != "MO":
+            raise RuntimeError("unexpected harness line %r" % t)
+        mres.append((path.replace(REALLIB, REALLIB_PATH[0]), None if t[2] == "-" else unhx(t[2]), t[1] == "1"))
+    c["mres"] = mres
 
 
 def oracle_tables(c):
@@ -225,10 +253,11 @@ def c_pcase(c):
     for (lib, so, name), (ret, bits) in zip(c["queries"], c["qres"]):
         qs.append("{| q_lib := %s; q_so := %s; q_name := %s; q_ret := %s; q_bits := [%s] |}" % (
             cb(lib), copt_bytes(so_bytes(so)), cb(name), cz(ret), ";".join(cbool(b) for b in bits)))
+    ms = ["(%s, %s, %s)" % (cb(pth), copt_bytes(so), cbool(r_)) for pth, so, r_ in c.get("mres", [])]
     return ("{| p_ptype := %s; p_funcs := %s; p_defmod := %s; p_cli := %s; p_regok := %s; p_tbl := %s;\n"
-            "   p_items := [%s];\n   p_queries := [%s] |}" % (
+            "   p_items := [%s];\n   p_queries := [%s];\n   p_mods := [%s] |}" % (
                 PT[c["ptype"]], cb(c["funcs"]), cb(c["defmod"]), cli, r, t,
-                ";".join(c_item(i) for i in c["items"]), ";\n     ".join(qs)))
+                ";".join(c_item(i) for i in c["items"]), ";\n     ".join(qs), "; ".join(ms)))
 
 
 # ---------------------------------------------------------------- update cases
@@ -255,6 +284,8 @@ def gen_update_case(rng, i, witness=None):
     ty = rng.choice([5, 5, 5, 5, 5, 3, 3, 3, 2, 1, 0])
     minsz = rng.choice([0, 0, 0, 1, 6, 7, 9, 10, 16, 17, 100, 4294967295])
     tags = ["ty=%d" % ty]
+    if witness is None and rng.random() < 0.15:
+        minsz = rng.choice([0, 5, 6, 7, 9, 10])
     # ---- text layout
     npages = 4
     first = rng.choice([0, 1])                      # first text page
@@ -289,11 +320,35 @@ def gen_update_case(rng, i, witness=None):
     else:
         tramp = (tend + PG - 1) // PG * PG - 16
     # ---- functions
+    tight = witness is None and rng.random() < 0.3     # adjacent functions exactly as long as a visit looks
     nf = rng.choice([1, 2, 3, 3, 4, 5, 6])
     names = rng.sample(UNAMES, nf)
     funcs = []
     data = bytearray()
+    if tight:
+        tags.append("tight-layout")
     for k in range(nf):
+        if tight:
+            kind = rng.choice(["gcc", "gcc", "clang", "fe1", "fe2", "call", "ff15", "push", "ret"])
+            endbr = kind not in ("call", "ff15", "ret") and rng.random() < 0.4
+            body = (ENDBR if endbr else b"") + (b"\xc3" if kind == "ret" else PROLOGUES[kind])
+            if kind == "ret":
+                size = rng.choice([1, 2, 4])
+            elif kind in ("call", "ff15"):
+                size = 6
+            else:
+                size = (9 if endbr else 6) + rng.choice([0, 0, 1])
+            code = bytearray(body)
+            while len(code) < size:
+                code.append(0xc3)
+            code = code[:max(size, len(body))] if kind != "ret" else code[:size]
+            spacing = len(code)
+            size = spacing
+            funcs.append({"off": len(data), "size": size, "name": names[k], "named": True, "kind": kind,
+                          "endbr": endbr, "stype": rng.choice([84, 84, 116, 119])})
+            data += code
+            tags.append("pro=%s%s" % ("endbr+" if endbr else "", kind))
+            continue
         kind = rng.choice(["gcc", "gcc", "gcc", "clang", "fe1", "fe2", "push", "nop4", "near", "call", "ff15",
                            "ff25", "endbr-half"])
         endbr = rng.random() < 0.35
@@ -346,7 +401,9 @@ def gen_update_case(rng, i, witness=None):
         a = wbase + f["off"]
         if f["named"]:
             syms.append((a, f["size"], f["stype"], f["name"]))
-        if ty == 5:
+        if ty == 5 and tight:
+            targets.append(a)
+        elif ty == 5:
             r = rng.random()
             if r < 0.85:
                 targets.append(a)
@@ -358,7 +415,7 @@ def gen_update_case(rng, i, witness=None):
                 tags.append("target-dup")
             if not f["named"]:
                 tags.append("fake-sym")
-    if ty == 5 and rng.random() < 0.15:
+    if ty == 5 and rng.random() < 0.15 and not tight:
         rng.shuffle(targets)
     ptype = rng.choice([1, 2, 2, 3])
     present = [f["name"] for f in funcs]
@@ -452,6 +509,54 @@ def c_ucase(c):
                 cb(i["thead"]), cz(i["tdelta"]), i["canary"], i["ncp"], cperms(i["cpb"]), cperms(i["cpa"])))
 
 
+# ---------------------------------------------------------------- module-type detection cases
+ELF_KINDS = {"plain": [], "pg": ["-pg"], "fentry": ["-pg", "-mfentry"]}
+
+
+def build_elfs(ctx):
+    """three real ELF files without patchable/xray sections: no profiling calls, mcount, __fentry__"""
+    d = os.path.join(ctx.scratch, "elfs")
+    os.makedirs(d, exist_ok=True)
+    src = os.path.join(d, "t.c")
+    open(src, "w").write("int f(int x) { return x + 1; }\nint main(void) { return f(1) - 2; }\n")
+    out = {}
+    for k, fl in ELF_KINDS.items():
+        exe = os.path.join(d, "elf-" + k)
+        sh(["gcc", "-O1"] + fl + ["-o", exe, src], check=True)
+        out[k] = exe
+    return out
+
+
+def gen_find_case(rng, i, elfs):
+    u = gen_update_case(rng, i)
+    kind = rng.choice(["plain", "plain", "plain", "pg", "fentry"])
+    # make the first ordinary function decisive more often: an endbr64 + NOP function alone, or none at all
+    return {"kind": "find", "elf": kind, "path": elfs[kind], "wbase": u["wbase"], "window": u["before"],
+            "syms": u["syms"], "tags": ["elf=" + kind] + [t for t in u["tags"] if t.startswith("pro=")]}
+
+
+def find_lines(c):
+    sy = " ".join("%d %d %d %s" % (a, sz, t, hx(n)) for a, sz, t, n in c["syms"])
+    return ["FIND %s %d %s %d %s" % (hx(c["path"]), c["wbase"], c["window"].hex(), len(c["syms"]), sy)]
+
+
+def read_find(out, c):
+    k = out.next().split()
+    if k[0] != "FT":
+        raise RuntimeError("c14 harness (FIND): unexpected line %r" % k)
+    c["itype"], c["chk"] = int(k[1]), int(k[2])
+
+
+def c_fcase(c):
+    return "{| f_chk := %s; f_wbase := %d; f_window := %s; f_syms := [%s]; i_type := %d |}" % (
+        cz(c["chk"]), c["wbase"], cb(c["window"]), ";".join(c_sym(s) for s in c["syms"]), c["itype"])
+
+
+def find_json(c):
+    return {"elf": c["elf"], "wbase": c["wbase"], "window": c["window"].hex(), "syms": [list(s) for s in c["syms"]],
+            "implementation": {"type": c.get("itype"), "check_trace_functions": c.get("chk")}}
+
+
 PRE = """From Coq Require Import NArith ZArith List Bool.
 Import ListNotations.
 Require Import UV.C14.Model.
@@ -459,14 +564,18 @@ Local Open Scope N_scope.
 """
 
 
-def evaluate(ctx, pcases, ucases, name="cases", fixed=False):
-    defs = "Definition pcases : list pcase := [\n%s\n].\n" % ";\n".join(c_pcase(c) for c in pcases)
+def evaluate(ctx, pcases, ucases, name="cases", fixed=False, fcases=()):
+    defs = "Definition fcases : list fcase := [\n%s\n].\n" % ";\n".join(c_fcase(c) for c in fcases)
+    defs += "Definition pcases : list pcase := [\n%s\n].\n" % ";\n".join(c_pcase(c) for c in pcases)
     defs += "Definition ucases : list ucase := [\n%s\n].\n" % ";\n".join(c_ucase(c) for c in ucases)
     res = coq.run_cases(ctx, name, PRE, defs, [
         ("p_mismatch", "bad_indices p_agrees pcases 0"),
         ("p_violations", "bad_indices p_ok pcases 0"),
         ("u_mismatch", "bad_indices (u_agrees %s) ucases 0" % cbool(fixed)),
         ("u_violations", "bad_indices u_ok ucases 0"),
+        ("u_in_layout", "bad_indices (fun u => negb (u_layout u)) ucases 0"),
+        ("f_mismatch", "bad_indices (f_agrees true) fcases 0"),
+        ("f_violations", "bad_indices f_ok fcases 0"),
     ])
     if res is None:
         return None
@@ -474,7 +583,7 @@ def evaluate(ctx, pcases, ucases, name="cases", fixed=False):
 
 
 def case_json(c):
-    j = {k: v for k, v in c.items() if k not in ("before", "impl", "items", "qres", "tags", "queries", "opts", "cli")}
+    j = {k: v for k, v in c.items() if k not in ("before", "impl", "items", "qres", "mres", "tags", "queries", "opts", "cli")}
     if "before" in c:
         j["before"] = c["before"].hex()
     if c.get("cli") is not None:
@@ -490,6 +599,8 @@ def impl_json(c):
                           "module": i["mod"].decode("latin1")} for i in c["items"]]
         out["answers"] = [[n, r, "".join("1" if b else "0" for b in bits)]
                           for (l, s, n), (r, bits) in zip(c["queries"], c["qres"])]
+        out["match_pattern_module"] = [[pth, so.decode("latin1") if so is not None else None, r]
+                                       for pth, so, r in c.get("mres", [])]
     if "impl" in c:
         i = dict(c["impl"])
         i["after"] = i["after"].hex()
@@ -499,17 +610,21 @@ def impl_json(c):
 
 
 # ---------------------------------------------------------------- in-process run
-def run_inproc(ctx, h, pcases, ucases):
+def run_inproc(ctx, h, pcases, ucases, fcases=()):
     lines = []
     for c in pcases:
         lines += pat_lines(c)
     for c in ucases:
         lines += upd_lines(c)
+    for c in fcases:
+        lines += find_lines(c)
     out = Out(h.run(lines))
     for c in pcases:
         read_pat(out, c)
     for c in ucases:
         read_upd(out, c)
+    for c in fcases:
+        read_find(out, c)
 
 
 def detect_variant(ctx, h):
@@ -523,9 +638,20 @@ def detect_variant(ctx, h):
     return c
 
 
-def verdict_inproc(ctx, pcases, ucases, res):
+def verdict_inproc(ctx, pcases, ucases, res, fcases=()):
     if res is None:
         return
+    for i in res.get("f_violations", [])[:3]:
+        c = fcases[i]
+        ctx.violation("C14 violated: a module with a patchable function (NOP form at the post-endbr64 entry of an "
+                      "ordinary function) gets a dynamic type that never patches (mcount_arch_find_module)",
+                      {"mode": "find", "case": find_json(c)}, True)
+    if res.get("f_mismatch") and not res.get("f_violations"):
+        c = fcases[res["f_mismatch"][0]]
+        ctx.violation("model and implementation of mcount_arch_find_module disagree (%d cases); the property checker "
+                      "accepts the implementation's choice on every explored case" % len(res["f_mismatch"]),
+                      {"correspondence": "C14.Model.find_module_type vs arch/x86_64/mcount-dynamic.c",
+                       "mode": "find", "case": find_json(c)}, False)
     for i in res["p_violations"][:3]:
         c = pcases[i]
         ctx.violation("C14 violated: match_pattern_list's verdict is not the polarity of the last matching "
@@ -553,6 +679,13 @@ def verdict_inproc(ctx, pcases, ucases, res):
                            "mode": "update", "case": case_json(c), "implementation": impl_json(c)}, False)
     ctx.extra["disagreements_checked"] = ctx.extra.get("disagreements_checked", 0) + len(res["p_mismatch"]) + len(
         res["u_mismatch"])
+    inl = [i for i in res.get("u_in_layout", []) if i < len(ucases)]
+    ctx.extra["update_cases_in_domain_of_C14_update_exact_layout"] = ctx.extra.get(
+        "update_cases_in_domain_of_C14_update_exact_layout", 0) + len(inl)
+    ctx.extra["...of_which_changed_bytes"] = ctx.extra.get("...of_which_changed_bytes", 0) + sum(
+        1 for i in inl if "impl" in ucases[i] and ucases[i]["impl"]["after"] != ucases[i]["before"])
+    ctx.extra["...of_which_tight_adjacent_layout"] = ctx.extra.get("...of_which_tight_adjacent_layout", 0) + sum(
+        1 for i in inl if "tight-layout" in ucases[i].get("tags", []))
 
 
 def common_meta(ctx):
@@ -562,14 +695,18 @@ def common_meta(ctx):
                 "sizes around max(min_size,6), symbol types, patchable-section targets (incl. symbol-less, "
                 "mid-symbol, duplicate), text end at page offsets {mid,4080,4081,4095,0,1}, pattern list; distinct = "
                 "distinct (layout, patterns, size filter); non-trivial = at least one pattern hits a queried name / "
-                "at least one function is visited with a non-zero decision; e2e cases: one generated program x "
-                "one -P/-U/-Z option set")
+                "at least one function is visited with a non-zero decision; find cases: the same generated function "
+                "windows and symbol tables x 3 real ELF files (no profiling symbol, mcount, __fentry__) through "
+                "mcount_arch_find_module, non-trivial = a patching type is chosen; e2e cases: one generated program "
+                "(5 build variants incl. -mfentry -mnop-mcount with endbr64) x one -P/-U/-Z option set, plus a sweep of "
+                "-Z values around INT_MAX, 2^32, LONG_MAX, 0 and negative numbers")
     ctx.trusted = [
         "Coq 8.16.1 kernel incl. vm_compute (no native_compute); axioms as printed by Print Assumptions (none)",
         "hand-written model coq/theories/C14/Model.v of libmcount/dynamic.c (parse_pattern_list, match_pattern_list, "
         "skip_sym, patch_{patchable,normal}_func_matched, mcount_save_code/freeze_code page effects) and "
         "arch/x86_64/mcount-dynamic.c (mcount_setup_trampoline, mcount_cleanup_trampoline, patch_fentry_code, "
-        "unpatch_func, mcount_patch_func, mcount_unpatch_func)",
+        "unpatch_func, mcount_patch_func, mcount_unpatch_func, the type decision of mcount_arch_find_module) and of the "
+        "-Z chain uftrace.c strtol -> int, cmds/record.c \"%d\", libmcount strtoul -> unsigned",
         "libc regcomp/regexec and fnmatch (bracket/backslash patterns) are oracles answered by the implementation "
         "itself; a Gallina matcher is used and cross-checked for literal, '*' and '?' patterns",
         "correspondence harness harness/c/c14_harness.c (#includes libmcount/dynamic.c, links the scratch build's "
@@ -580,7 +717,11 @@ def common_meta(ctx):
         "mprotect on a module's text range succeeds (all pages mapped); its failure path (return -1) is not modelled",
         "patching happens before main() in a single thread: safety of the 5-byte rewrite w.r.t. concurrently executing "
         "threads is not covered",
-        "symbol tables are sorted with disjoint ranges (find_sym = the unique symbol containing the address)",
+        "symbol tables are sorted with disjoint ranges (find_sym = the unique symbol containing the address); the "
+        "exactness theorems additionally need every endbr64 function >= 9 bytes and every -U'd function >= 6 bytes "
+        "(the check counts how many generated cases satisfy this: update_cases_in_domain_of_C14_update_exact_layout)",
+        "module-type detection: which sections an ELF has and what check_trace_functions answers are inputs of the model "
+        "(read from the real file / the real function); symbols outside the dumped text window are not probed end-to-end",
         "patch methods of this build only: __patchable_function_entries and fentry NOPs (no capstone, no xray); "
         "DYNAMIC_PG unpatching via __mcount_loc is not modelled",
     ]
@@ -608,11 +749,19 @@ def run(ctx):
     ucases = [gen_update_case(rng, i) for i in range(ctx.n(260, 3000))]
     # the known-defect class (a page must be added but the next page is occupied) is only visited by the witness
     ucases = [c for c in ucases if not c["fatal_expected"]]
+    build_reallib(ctx)
+    elfs = build_elfs(ctx)
+    fcases = [gen_find_case(rng, i, elfs) for i in range(ctx.n(120, 1200))]
     wit = detect_variant(ctx, h)
-    run_inproc(ctx, h, pcases, ucases)
+    run_inproc(ctx, h, pcases, ucases, fcases)
+    for c in fcases:
+        ctx.case(key=("find", c["elf"], c["wbase"], c["window"], tuple(c["syms"])), nontrivial=c["itype"] != 0,
+                 tags=["find:" + t for t in set(c["tags"])] + ["find:type=%d" % c["itype"]], size=len(c["window"]))
     for c in pcases:
         ctx.case(key=("pat", c["ptype"], c["funcs"], c["defmod"], tuple(c["queries"])), nontrivial=nontrivial_pat(c),
-                 tags=["pattern:" + t for t in c["tags"]] + ["ptype=%d" % c["ptype"]],
+                 tags=["pattern:" + t for t in c["tags"]] + ["ptype=%d" % c["ptype"]]
+                 + ["pattern:module-%s%s" % ("visited" if r_ else "skipped", "-by-soname" if so else "")
+                    for pth, so, r_ in c.get("mres", [])],
                  sample={"case": case_json(c), "implementation": impl_json(c)} if len(ctx.samples) < 2 and nontrivial_pat(c) else None,
                  size=len(c["funcs"]))
     ns = 0
@@ -634,10 +783,10 @@ def run(ctx):
     # defect returns, the checker rejects the implementation's behaviour and a VIOLATION is reported.
     ctx.c14_fixed = True
     ctx.extra["trampoline_page_variant"] = "as found (pr_err)" if wit["impl"]["fatal"] else "repaired (returns -1)"
-    res = evaluate(ctx, pcases, ucases + [wit], fixed=True)
+    res = evaluate(ctx, pcases, ucases + [wit], fixed=True, fcases=fcases)
     if res is not None:
         ctx.case(key=("witness", KNOWN_KEY), tags=["update:witness-trampoline-page-occupied"])
-        verdict_inproc(ctx, pcases, ucases + [wit], res)
+        verdict_inproc(ctx, pcases, ucases + [wit], res, fcases)
     from props import c14_e2e
     c14_e2e.run(ctx, objdir, h)
 
@@ -659,6 +808,17 @@ def replay(ctx, obj):
         return
     c["queries"] = [(l, s, n) for l, s, n in c.get("queries", [])]
     c["tags"] = []
+    build_reallib(ctx)
+    if mode == "find":
+        elfs = build_elfs(ctx)
+        f = {"kind": "find", "elf": c["elf"], "path": elfs[c["elf"]], "wbase": c["wbase"],
+             "window": bytes.fromhex(c["window"]), "syms": [tuple(x) for x in c["syms"]], "tags": []}
+        run_inproc(ctx, h, [], [], [f])
+        res = evaluate(ctx, [], [], fcases=[f])
+        ctx.case(key="replay", sample=find_json(f))
+        ctx.log("replayed:", find_json(f)["implementation"])
+        verdict_inproc(ctx, [], [], res, [f])
+        return
     if mode == "pattern":
         c["cli"] = [tuple(o) for o in c["cli"]] if c.get("cli") is not None else None
         run_inproc(ctx, h, [c], [])
